@@ -58,6 +58,7 @@ impl<'a> EFIMemoryAreaIter<'a> {
 // `impl Iterator for EFIMemoryAreaIter` (R4)
 //@extractall multiboot2/src/memory_map.rs :: impl<'a> Iterator for EFIMemoryAreaIter<'a>
 //@  type Item: skip
+//@  fn *: nocontract
 //@  fn *: rules R2, R8
 //@  fn *: sigrewrite /Self::Item/ => /&'a EFIMemoryDesc/ x*
 //@  fn next: ret r
@@ -82,6 +83,7 @@ impl<'a> EFIMemoryAreaIter<'a> {
 
 // `impl ExactSizeIterator for EFIMemoryAreaIter` (R4)
 //@extractall multiboot2/src/memory_map.rs :: impl ExactSizeIterator for EFIMemoryAreaIter<'_>
+//@  fn *: nocontract
 //@  fn *: rules R2, R8
 //@  fn len: ret r
 //@  fn len: spec:
